@@ -26,6 +26,6 @@ try:
         vs = [v for v in sub.viol if v["key"] not in known]
         print(pid, "->", "BROKEN %s" % sub.broken if sub.broken else "", len(vs), "violations")
         for v in vs[:8]:
-            print("    ", v["key"], "|", v.get("where"), "|", (v.get("msg") or v.get("message") or "")[:220])
+            print("    ", v["key"], "|", v.get("where"), "|", (v.get("msg") or v.get("message") or "")[:int(__import__("os").environ.get("MSGLEN","220"))])
 finally:
     shutil.rmtree(d, ignore_errors=True)
